@@ -371,7 +371,11 @@ class MemFS:
     def open(self, p, mode="r", *a, **k):
         p = self._norm(p)
         if "b" not in mode:
-            raise NotImplementedError("text mode is not used by the code under test")
+            # text mode: the same numbered steps on the binary object, UTF-8 (every write() call of the text layer is one write step,
+            # as for an unbuffered stream: the finest granularity a crash can have)
+            if "+" in mode or "a" in mode:
+                raise NotImplementedError(mode)
+            return _Text(self.open(p, mode.replace("t", "") + "b", *a, **k))
         if "r" in mode and "+" not in mode:
             self.tick("open_r", p)
             h = self._do_open_r(p)
@@ -522,6 +526,36 @@ class _Reader:
     def __exit__(self, *a):
         self.close()
         return False
+
+
+class _Text:
+    """text-mode view of a _Reader / _Writer"""
+
+    def __init__(self, inner):
+        self.inner = inner
+
+    def read(self, n=-1):
+        return self.inner.read().decode("utf-8")
+
+    def write(self, s):
+        self.inner.write(s.encode("utf-8"))
+        return len(s)
+
+    def flush(self):
+        pass
+
+    def close(self):
+        self.inner.close()
+
+    def __iter__(self):
+        return iter(self.read().splitlines(True))
+
+    def __enter__(self):
+        self.inner.__enter__()
+        return self
+
+    def __exit__(self, *a):
+        return self.inner.__exit__(*a)
 
 
 class _Writer:
